@@ -272,7 +272,7 @@ def decodeFile (convert : Bool) (body : List Nat) : Except Err (List Int) :=
     | [] => .error (.unsupported "no version byte (struct.error)")
     | vb :: _ =>
       if versionOk (sbyte vb) then
-        match (mainProg (sbyte vb).toNat convert (8 * body.length + 1)).run uvarW (initW body) with
+        match (mainProg (sbyte vb).toNat convert (8 * body.length + 1)).run (uvarW (8 * body.length + 1)) (initW body) with
         | .error e => .error e
         | .ok (out, _) => .ok out
       else .error (.io .badVersion)
@@ -283,7 +283,7 @@ def decodeFileM (convert : Bool) (body : List Nat) : Except Err (List Int × Boo
     | [] => .error (.unsupported "no version byte (struct.error)")
     | vb :: _ =>
       if versionOk (sbyte vb) then
-        match (mainProg (sbyte vb).toNat convert (8 * body.length + 1)).runM uvarW (initW body) true with
+        match (mainProg (sbyte vb).toNat convert (8 * body.length + 1)).runM (uvarW (8 * body.length + 1)) (initW body) true with
         | .error e => .error e
         | .ok (out, _, fl) => .ok (out, fl)
       else .error (.io .badVersion)
